@@ -757,6 +757,29 @@ class Engine:
             flow_updates, deletions, view_expire
         ) = self.state.apply_update(update, state)
 
+        # The store carried out the operations of the update in order
+        # (additions, moves, generation and division, deletions last):
+        # a path that was vacated may have been filled again by a later
+        # operation of the same update, and what was created may have
+        # been deleted again. So first forget what the deletions name,
+        # then register what is in the hierarchy now.
+        for deletion in deletions or []:
+            self._delete_path(deletion)
+
+        def present(path: HierarchyPath) -> bool:
+            node = self.state
+            for key in path:
+                if key not in node.inner:
+                    return False
+                node = node.inner[key]
+            return True
+
+        topology_updates, process_updates, step_updates, flow_updates = (
+            [(path, new) for path, new in updates if present(path)]
+            for updates in (
+                topology_updates or [], process_updates or [],
+                step_updates or [], flow_updates or []))
+
         process_updates = [
             (path, self._parallelize_processes(process))
             for path, process in process_updates
@@ -793,10 +816,6 @@ class Engine:
                 dependencies = flow_update_dict.get(path)
                 assoc_path(self.steps, path, step)
                 self._add_step_path(step, path, dependencies)
-
-        if deletions:
-            for deletion in deletions:
-                self._delete_path(deletion)
 
         return view_expire
 
